@@ -745,3 +745,17 @@ def valid_value(spec, ty, v):
     except Exception:
         return False
     return False
+
+
+def value_weight(v):
+    """Rough size in bytes of the encoding of a value (to keep the quadratic
+    Python bit-string encoder out of multi-megabyte messages)."""
+    if isinstance(v, (bytes, bytearray)):
+        return len(v) + 2
+    if isinstance(v, dict):
+        return sum(value_weight(x) for x in v.values()) + 1
+    if isinstance(v, list):
+        return sum(value_weight(x) for x in v) + 2
+    if isinstance(v, tuple):
+        return sum(value_weight(x) for x in v)
+    return 1
